@@ -143,6 +143,17 @@ def lexLoop : Nat → List Char → Nat → Nat → List RawTok → List RawTok
       let (l', c') := advance line col (inp.take n)
       lexLoop fuel (inp.drop n) l' c' acc
 
+/-- number of lexical errors (dropped character runs) — the real lexer only prints them to the console -/
+def lexErrLoop : Nat → List Char → Nat → Nat
+  | 0, _, n => n
+  | _, [], n => n
+  | fuel + 1, inp, n =>
+    match bestMatch inp with
+    | (some (_, k), _) => lexErrLoop fuel (inp.drop k) n
+    | (none, via) => lexErrLoop fuel (inp.drop (via + 1)) (n + 1)
+
+def lexErrors (s : String) : Nat := let cs := s.toList; lexErrLoop (cs.length + 1) cs 0
+
 /-- All tokens, hidden ones included, in source order. -/
 def lexRaw (s : String) : List RawTok :=
   let cs := s.toList
